@@ -138,24 +138,39 @@ def run(rep):
               v is not None and dotted(v) == '__add__', '__radd__ = __add__',
               construct='radd', node=decl)
 
-    # ---- R20.3 ---------------------------------------------------------------
+    # ---- R20.3 (decision rows over path summaries) ----------------------------
+    from . import sem as _sem
     f = ms['__contains__']
     p = shared.params(f)[1]
-    rets = [n for n in walk_local(f) if isinstance(n, ast.Return)]
-    ok = len(rets) == 1 and match(
-        'self.extends(%s) and %s in self.interfaces()' % (p, p), rets[0].value) is not None
-    rep.check('R20.3', 'Declaration.__contains__', ok,
-              'returns %s' % [norm_src(r.value) for r in rets], node=f)
-    f = ms['__iter__']
-    rets = [n for n in walk_local(f) if isinstance(n, ast.Return)]
-    rep.check('R20.3', 'Declaration.__iter__',
-              len(rets) == 1 and match('self.interfaces()', rets[0].value) is not None,
-              '__iter__ = interfaces()', node=f)
-    f = ms['flattened']
-    rets = [n for n in walk_local(f) if isinstance(n, ast.Return)]
-    rep.check('R20.3', 'Declaration.flattened',
-              len(rets) == 1 and match('iter(self.__iro__)', rets[0].value) is not None,
-              'flattened = iter(__iro__)', node=f)
+    EXT = 'self.extends(%s)' % p
+    rows = _sem.decision_rows(f, [EXT])
+    bad = []
+    for assign, ps, val in rows:
+        want = '%s in self.interfaces()' % p if assign[EXT] else EXT
+        if val != want:
+            bad.append('extends=%s: returns `%s`' % (assign[EXT], val[:60]))
+        calls = [_sem.nt(e.r) for e in ps.events if e.kind == 'call']
+        if calls[:1] != [EXT]:
+            bad.append('does not ask self.extends(%s) first: %s' % (p, calls[:2]))
+    if {a_[EXT] for a_, _, _ in rows} != {True, False}:
+        bad.append('cases seen: %s' % sorted({a_[EXT] for a_, _, _ in rows}))
+    rep.check('R20.3', 'Declaration.__contains__', not bad,
+              'membership = extends(i) and i in interfaces() (the falsy extends '
+              'result itself otherwise)' if not bad else
+              {'problems': sorted(set(bad))[:3]}, node=f)
+
+    def returns_only(fn, want, site, text):
+        ss_ = _sem.normal(_sem.summaries(fn))
+        got = sorted({_sem.nt(ps.ret) for ps in ss_})
+        extra = [_sem.nt(e.r) for ps in ss_ for e in ps.events if e.kind != 'call'
+                 or _sem.nt(e.r) not in want]
+        rep.check('R20.3', site, bool(ss_) and set(got) <= set(want) and not extra,
+                  text if set(got) <= set(want) and not extra else
+                  {'returns': got, 'other effects': extra[:2]}, node=fn)
+    returns_only(ms['__iter__'], ['self.interfaces()'], 'Declaration.__iter__',
+                 '__iter__ = interfaces()')
+    returns_only(ms['flattened'], ['iter(self.__iro__)'], 'Declaration.flattened',
+                 'flattened = iter(__iro__)')
     declsem.spec_interfaces(rep, imod, 'R20.3')
     f = find_def(imod, 'InterfaceClass.interfaces')
     ys = [n for n in walk_local(f) if isinstance(n, ast.Yield)]
@@ -182,9 +197,23 @@ def run(rep):
     # ---- R20.6 ---------------------------------------------------------------
     declsem.provides_users(rep, dmod, 'R20.6')
     f = find_def(dmod, 'directlyProvidedBy')
-    rets = [n for n in walk_local(f) if isinstance(n, ast.Return)]
-    vals = sorted(norm_src(r.value) for r in rets)
-    rep.check('R20.6', 'declarations.directlyProvidedBy',
-              vals == ['Declaration(provides.__bases__[:-1])', '_empty'],
-              'strips exactly the last base (the class specification): %s' % vals,
-              node=f)
+    P = "getattr(object, '__provides__', None)"
+    A_NONE, A_IMPL = '%s is None' % P, 'isinstance(%s, Implements)' % P
+    rows = _sem.decision_rows(f, [A_NONE, A_IMPL])
+    bad = []
+    seen_rows = set()
+    for assign, ps, val in rows:
+        if assign[A_NONE] and assign[A_IMPL]:
+            continue            # None is not an Implements
+        seen_rows.add((assign[A_NONE], assign[A_IMPL]))
+        want = '_empty' if (assign[A_NONE] or assign[A_IMPL]) else \
+            'Declaration(%s.__bases__[:-1])' % P
+        if val != want:
+            bad.append('no declaration=%s, class spec=%s: returns `%s`'
+                       % (assign[A_NONE], assign[A_IMPL], val[:60]))
+    if seen_rows != {(True, False), (False, True), (False, False)}:
+        bad.append('cases seen: %s' % sorted(seen_rows))
+    rep.check('R20.6', 'declarations.directlyProvidedBy', not bad,
+              'no __provides__ or the class\'s own Implements -> _empty; otherwise '
+              'strips exactly the last base (the class specification)' if not bad
+              else {'problems': sorted(set(bad))[:3]}, node=f)
